@@ -70,6 +70,24 @@ Theorem positional_given : forall extra t args kw r a g,
 Proof. exact positional_given_l. Qed.
 Print Assumptions positional_given.
 
+(* Whether - and how - a call is rejected depends only on WHICH arguments are
+   defined (`value is not None`), never on the values themselves: 0, False, '',
+   0.0, an empty list or object count exactly like any other value, in a choice
+   branch as anywhere else.  For ANY list of parameter definitions. *)
+Theorem reject_depends_on_definedness_only : forall extra ps args kw args' kw',
+  same_definedness args args' kw kw' ->
+  fst (parse_args extra ps args kw) = fst (parse_args extra ps args' kw').
+Proof. exact reject_depends_on_definedness_only_l. Qed.
+Print Assumptions reject_depends_on_definedness_only.
+
+(* and so does the specification the implementation is judged by *)
+Theorem must_reject_depends_on_definedness_only : forall t args kw args' kw',
+  wf t = true -> kw_distinct kw = true -> kw_distinct kw' = true ->
+  same_definedness args args' kw kw' ->
+  must_reject t args kw = must_reject t args' kw'.
+Proof. exact must_reject_definedness_l. Qed.
+Print Assumptions must_reject_depends_on_definedness_only.
+
 (* with extra-argument checking disabled no call is rejected - for ANY list of
    parameter definitions, well-formed or not *)
 Theorem no_reject_when_off : forall ps args kw,
@@ -140,6 +158,8 @@ Example c08_nonvacuous :
   fst (parse_args true (flatten [] ex_tree)
          [Some 1; None; None; None; None; Some 6; Some 7] []) = RPositional 3 6 7 /\
   must_reject ex_tree [Some 1; Some 2] [(3, Some 3); (6, Some 6)] = false /\
+  same_definedness [Some 1; None; Some 3; Some 4] [Some 1; None; Some 400; Some 800] [] [] /\
+  fst (parse_args true (flatten [] ex_tree) [Some 1; None; Some 400; Some 800] []) = RChoice /\
   snd (parse_args true (flatten [] ex_tree) [Some 1] [(4, Some 4)]) =
     [(1, false, Some 1); (2, false, None); (3, true, None); (4, true, Some 4); (5, true, None);
      (6, false, None)].
